@@ -329,8 +329,12 @@ func TestFindings(t *testing.T) {
 func FuzzProp(f *testing.F) {
 	id := os.Getenv("VERIF_PROP")
 	p := registry[id]
-	if p == nil || p.FromBytes == nil {
+	if p == nil || (p.FromBytes == nil && p.Gen == nil) {
 		f.Skip("no native fuzz target for VERIF_PROP=" + id)
+	}
+	if p.FromBytes == nil {
+		fuzzThroughGenerator(f, id, p)
+		return
 	}
 	if p.FuzzSeeds != nil {
 		for _, s := range p.FuzzSeeds() {
@@ -365,4 +369,45 @@ func FuzzProp(f *testing.F) {
 			t.Fatalf("%v", err)
 		}
 	})
+}
+
+// fuzzThroughGenerator is the coverage-guided entry point of the properties that have no byte-level
+// form: the fuzzer's bytes become the random bit stream of the property's own rapid generator
+// (rapid.MakeFuzz), so every structural precondition and every known-finding exclusion of the
+// generator stays in force while coverage feedback steers the draws.
+func fuzzThroughGenerator(f *testing.F, id string, p *Prop) {
+	out := os.Getenv("VERIF_OUT")
+	ctx := &Ctx{Stats: harness.NewStats(id), Tier: "thorough", Shards: 1, Seed: envInt("VERIF_SEED", 1)}
+	for i := 0; i < 8; i++ {
+		seed := make([]byte, 256)
+		for j := range seed {
+			seed[j] = byte((i*131 + j*29 + 7) % 251)
+		}
+		f.Add(seed)
+	}
+	f.Fuzz(rapid.MakeFuzz(func(rt *rapid.T) {
+		c := p.Gen(rt, ctx)
+		ctx.labels = ctx.labels[:0]
+		ctx.nontrivial, ctx.Hung, ctx.Abandoned = false, false, false
+		err := safeCheck(p, c, ctx)
+		if ctx.Abandoned && !ctx.Hung {
+			return
+		}
+		if ctx.Hung && err == nil {
+			err = fmt.Errorf("library call did not return within the deadline")
+		}
+		if err != nil {
+			js, _ := json.Marshal(c)
+			kind := "violation"
+			if ctx.Hung {
+				kind = "hang"
+			}
+			if out != "" {
+				if _, serr := os.Stat(out + ".replay"); serr != nil { // keep the first one (the fuzzer goes on to minimise)
+					writeReplay(out+".replay", id, kind, js, err)
+				}
+			}
+			rt.Fatalf("%v", err)
+		}
+	}))
 }
